@@ -15,7 +15,7 @@ from verifx.harness import Obligation
 from . import common
 
 PROPERTY = 'C20'
-OBLIGATION_WALL_S = {'quick': 600, 'thorough': 14000}
+OBLIGATION_WALL_S = {'quick': 600, 'thorough': 2700}
 LEVEL = 'model_checking'
 ASSUMPTIONS = [
     'bit-precise IEEE float32 (z3 FloatingPoint, round-nearest-even); '
